@@ -75,6 +75,13 @@ checks.update({
    note="Query permutations/re-encodings and scheme case count as identical; percent-decoded-equal loopback paths are don't-care. Known finding: form_post with non-http(s) schemes (see known_findings.json)."),
 })
 
+checks.update({
+ "C10": dict(level="exploration", engine="ENUM", ref="DESIGN.md §5 C10",
+   technique="exhaustive enumeration of registration x endpoint/grant x credential transport x secret relation (x skip-auth setting) on the real provider with real bcrypt, judged by an independent reference of who is authenticated; proxy-store log and store-dump equality for 'neither issues nor invalidates'",
+   text="13 client registrations (plain with 0/1/2 rotated secrets, public with/without secret hash, confidential with empty hash, OIDC clients for each token_endpoint_auth_method, special characters) x 9 endpoints/grants x 10 transports (basic, post, both, id only, nothing, malformed / unencoded header, private_key_jwt assertion with right/wrong key, assertion+basic) x 8 secret relations: a request is processed only for a presentation that authenticates the registration; every rejected one writes to no code/token table, leaves the store dump unchanged and a victim token active; public clients never pass client_credentials; only jwt-bearer with the explicit setting runs without client authentication.",
+   note="Mixed presentations are don't-care; bcrypt cost 4."),
+})
+
 # properties not (yet) claimed: reason
 not_applicable = {
 }
@@ -95,7 +102,7 @@ man = {
  "engines": [
   {"name": "HIST", "path": "h/fam.go", "serves_properties": ["C01", "C04", "C08", "C09"], "kind_free_text": "explicit-state breadth-first search over API histories of the real provider, lock-step reference model, worker subprocesses, global dedup on canonical store dump"},
   {"name": "SEQ", "path": "h/c03.go", "serves_properties": ["C03", "C16", "C17"], "kind_free_text": "exhaustive bounded enumeration of operation sequences on the real provider"},
-  {"name": "ENUM", "path": "h/c02.go h/c05.go h/c06.go h/c07.go h/c11.go h/c12.go", "serves_properties": ["C02", "C05", "C06", "C07", "C11", "C12"], "kind_free_text": "exhaustive enumeration of finite input/configuration/history-position products, each case executed on a fresh real provider and judged by an independent reference predicate"},
+  {"name": "ENUM", "path": "h/c02.go h/c05.go h/c06.go h/c07.go h/c10.go h/c11.go h/c12.go", "serves_properties": ["C02", "C05", "C06", "C07", "C10", "C11", "C12"], "kind_free_text": "exhaustive enumeration of finite input/configuration/history-position products, each case executed on a fresh real provider and judged by an independent reference predicate"},
  ],
  "checks": [],
  "notes": "All checks rebuild the instrumented harness from /repo's working tree (./verif). Violations are re-executed 5x from their artefact before being reported; known findings live in /verif/known_findings.json.",
